@@ -193,6 +193,8 @@ class Ops(SeriesOps):
             how = "mask"
         else:
             kt = rowsel.term if isinstance(rowsel, Ser) else to_term(rowsel)
+            if isinstance(rowsel, Ser) and rowsel.ctx != f.ctx():
+                kt = ("labels", kt, rowsel.ctx)
             new = ("scatter", kt, vt, old)
             how = "labels"
         self.M.mutating(f, node, "loc-store", column=colsel, how=how, term=new, value=vt, rowsel=to_term(rowsel) if not isinstance(rowsel, Ser) else rowsel.term)
